@@ -18,7 +18,8 @@ RULE = ("Hypothesis draws a data-first model - an LP (feasible / infeasible / op
         "OPTIMAL, every row and the ball (recomputed from the drawn data), every Constraint.violation and every "
         "declared bound must hold at the returned values within tau = 1e-5*max(1, sum|terms|).  A method that "
         "refuses the model by raising gives no Solution (discard).  Non-trivial = the model is infeasible by "
-        "construction or has a constraint/bound that is active at the optimum.")
+        "construction or has a constraint/bound that is active at the optimum."
+        '  Also: one third of the cases re-solve the same problem, tighten a bound between two solves (judged against the current bounds), or carry a constraint between parameters only (need <= cap) that is true or false.')
 BUDGET = {"quick": {"workers": 16, "examples": 50}, "thorough": {"workers": 16, "examples": 1500}}
 ASSUMPTIONS = ["only status OPTIMAL is constrained by this property"]
 MANIFEST = {
